@@ -823,15 +823,10 @@ def filter_case(case):
                           dict(argv=argv, stdin=_short(stdin), expected=[inp_lines[i] for i in exp_bool[:40]],
                                got=[inp_lines[i] for i in got_bool[:40]]))
             return res
+        # records on which the expression is absent: the statement only requires that each goes to exactly one of
+        # `filter X` / `filter -x X` (partition law below); WHICH side is not judged (see assumptions), only recorded
         got_abs = [i for i in got if vals[i] is ABSENT]
-        exp_abs = [] if inv else [i for i, v in enumerate(vals) if v is ABSENT]
-        if got_abs != exp_abs:
-            add_violation(res, dict(sigbase, kind="absent-side", on="absent"),
-                          f"mlr {' '.join(argv)}: the expression is absent on {n_abs} records; the reference says a record "
-                          f"passes `filter` when the expression is true or absent (and `filter -x` prints only records where it is "
-                          f"false), but {len(got_abs)} of them came out of this run",
-                          dict(argv=argv, stdin=_short(stdin), expected_ids=[inp_lines[i] for i in exp_abs[:20]],
-                               got_ids=[inp_lines[i] for i in got_abs[:20]]))
+        bump(res, "absent_records_printed_by_filter_-x" if inv else "absent_records_passed_by_filter", len(got_abs))
     # partition law (model-free)
     a, bb = outs[False], outs[True]
     if set(a) & set(bb) or sorted(a + bb) != list(range(n)):
@@ -1166,6 +1161,13 @@ def other_cases(chk):
             c["k"] = rng.choice([None, None, 0, 1, n + 3, 2 * n, 7])
             c["form"] = "default-n" if c["k"] is None else "-n"
         rnd.append(c)
+    # fixed edge cases (kept from defects found by the random cases)
+    rnd.append({"verb": "bootstrap", "n": 0, "b": 0, "mseed": 1, "k": 3, "form": "-n", "seed": f"{chk.seed}/{chk.tier}/rand/fixed0"})
+    rnd.append({"verb": "bootstrap", "n": 0, "b": 1, "mseed": 2, "k": None, "form": "default-n", "seed": f"{chk.seed}/{chk.tier}/rand/fixed1"})
+    rnd.append({"verb": "sample", "n": 13, "b": 0, "mseed": 3, "k": 10 ** 9, "g": ["a"], "ragged": 0.0, "form": "-g",
+                "seed": f"{chk.seed}/{chk.tier}/rand/fixed2"})
+    rnd.append({"verb": "sample", "n": 2, "b": 0, "mseed": 4, "k": 10 ** 9, "g": [], "ragged": 0.0, "form": "plain",
+                "seed": f"{chk.seed}/{chk.tier}/rand/fixed3"})
     lawnames = ["head+tail", "headneg+tail", "tac-tac", "group-sizes", "head-g=cat-n-g", "grep+grep-v", "decimate-1",
                 "decimate-be", "shuffle-sorted", "sample-all", "head-then-tail"]
     for i in range(132 if q else 1100):
@@ -1239,9 +1241,13 @@ def run(chk):
         "decimate: -e passes the records whose per-group position is a multiple of n, -b those at position 1 mod n "
         "('first/last of every n'); n <= 0 is rejected by mlr and not generated",
         "filter: comparisons and =~ with an absent operand are absent; boolean connectives are only generated over operands that "
-        "are never absent (their absent rules are C08's subject), plus the guarded idiom is_present($f) && ...; per "
-        "reference-dsl.md a record passes `filter` when the expression is true or absent, and `filter -x` prints records where it "
-        "is false",
+        "are never absent (their absent rules are C08's subject), plus the guarded idiom is_present($f) && ...; records on which "
+        "the expression is boolean are judged exactly (true passes, false does not, -x inverts)",
+        "filter with an ABSENT expression: only the partition law is judged (the record comes out of exactly one of `filter X` and "
+        "`filter -x X`), not the side. Known discrepancy, not a violation of the statement: reference-dsl.md:187 ('Differences between "
+        "put and filter') says a record passes when the expression is true or absent, whereas the binary drops it from `filter` and "
+        "prints it with `-x`; upstream's regression cases (test/cases/dsl-from-file/0006, dsl-regex/0003) pin the binary's behaviour. "
+        "The observed side is counted in observed.absent_records_*",
         "regexes are drawn from a literal-safe subset on which Go RE2 and Python re agree (ASCII data)",
         "uniq -a compares records as ordered lists of key/value texts (1 and 1.0 differ); -d/-u do not exist for -a in this binary",
         "cat -n -g: what happens to records lacking the group-by field is undocumented and not judged (counted in observed)",
